@@ -9,7 +9,7 @@ def structures(tier, seed):
         return [("AB_rev", ("grid", 2, 1, 1, 0)), ("order3_repeat", ("graph", "pair")), ("dimer_source", ("grid", 2, 1, 1, 1)),
                 ("ABC_bi", ("graph", "triangle")), ("chstt_B", ("grid", 1, 2, 1, 2)), ("AB_rev", ("grid", 1, 1, 1, 1)),
                 ("none", ("graph", "path_isolated")), ("AB_rev", ("graph", "parallel")), ("AB_rev", ("graph", "selfloop")),
-                ("AB_rev", ("grid", 1, 1, 3, 3)), ("none", ("grid", 1, 2, 2, 2))]        # z axis extended: periodic in z only / in y only
+                ("AB_rev", ("grid", 1, 1, 3, 3)), ("none", ("grid", 1, 2, 2, 2)), ("quad", ("grid", 2, 1, 1, 1)), ("quad", ("graph", "pair"))]        # z axis extended: periodic in z only / in y only
     return [p for p in catalogue.pairs("thorough", seed, engine_multigraph=True) if p[0] != "order4" or p[1][0] == "graph" or p[1][1] * p[1][2] * p[1][3] <= 2]
 
 
